@@ -1015,7 +1015,11 @@ class Poly:
         src = getattr(self, "indeterminants_of", None)
         if src is not None:
             return src.D                 # poly.indeterminants is the vector of the D indeterminates
-        raise U("len of a polynomial array (first extent is not modelled)")
+        # len(array) = extent of the first axis; a 0-d array has no len() (TypeError)
+        if not ex.decide(ndim(self.shape) >= 1, "len.sized"):
+            from .sx import RaiseSig
+            raise RaiseSig("TypeError", None, "len() of unsized object")
+        return extent(self.shape, z3.IntVal(0))
 
     def sx_iter(self, ex):
         src = getattr(self, "indeterminants_of", None)
